@@ -204,7 +204,7 @@ class KernelEvalBase:
         """
         nspin, N0, Nsamp = X0T.shape
         N1 = self.N1
-        if force_polarize and dfdX1.shape[0] == 2 and nspin == 1:
+        if force_polarize and self.mode == "POL" and nspin == 1:
             # both (identical) channels depend on the single input channel
             dfdX1 = 2 * dfdX1[:1]
         if self.mode == "SEP" or self.mode == "POL":
